@@ -2,9 +2,9 @@ package main
 
 import (
 	"fmt"
-	"math/big"
 	"go/token"
 	"go/types"
+	"math/big"
 	"sort"
 	"strings"
 
